@@ -353,6 +353,16 @@ def micro_scenarios():
         "conns": [_c("P", "eo", "Q", "ti"), _c("Q", "eo", "P", "ti", weak=True), _c("P", "eo", "S", "ti"),
                   _c("R", "po", "S", "mi")],
         "initial_events": {"P": 0}, "until": 3}
+    # three levels: a same-time loop R <-> S at the level of the outer group, S and its consumer T in an inner group,
+    # T also reads (non-trigger) an ungrouped O that itself reads S: with lazy stepping S must not wait for T at a
+    # sub-step of the outer loop, because T's pending step needs O, which needs the loop's time step to end
+    out["inner_consumer_blocked_by_outside_reader_of_loop"] = {
+        "tree": ["O", ["R", ["S", "T"]]],
+        "sims": [_sim("O", "time-based", steps=[1]), _sim("R", "event-based", emit=[1], budget=2),
+                 _sim("S", "event-based", steps=[1], emit=[1], budget=2), _sim("T", "time-based", steps=[1])],
+        "conns": [_c("S", "eo", "R", "ti"), _c("R", "eo", "S", "ti", weak=True), _c("S", "eo", "T", "mi"),
+                  _c("O", "po", "T", "mi"), _c("S", "eo", "O", "mi")],
+        "initial_events": {"S": 0}, "until": 3}
     # value shapes: measurements that are falsy JSON values (an explicit None, 0, "", False, [], {}) between ordinary
     # ones, read by a faster and a slower consumer
     out["falsy_measurements"] = {
